@@ -1508,7 +1508,7 @@ Proof.
 Qed.
 
 Lemma observe_fin t : fin t <> Live -> fin (t_observe t) <> Live.
-Proof. intros N. unfold t_observe. destruct (fin t); auto; congruence. Qed.
+Proof. intros N. unfold t_observe. destruct (fin t) eqn:E; try (rewrite E; exact N). exfalso; apply N; reflexivity. Qed.
 Lemma observe_fmono ids : forall ts, fmono ts (observe ids ts).
 Proof.
   induction ids as [|i r IH]; intros ts; simpl; [apply fmono_refl|].
@@ -1587,7 +1587,7 @@ Proof.
   pose proof (S1 j t Hj) as (_ & _ & _ & _ & _ & _ & _ & Hf).
   pose proof (poll_leaves_no_final_live Generic st0 ids decs st Hcov F j t Hj) as Hok.
   destruct (fin t) eqn:Ef.
-  - exfalso. destruct Hf as (Hm & _). destruct (Hok eq_refl) as (Hc & _). apply Hc.
+  - exfalso. destruct Hf as (Hm & _). destruct (Hok Ef) as (Hc & _). apply Hc.
     unfold status_of. rewrite Hm, Hp. reflexivity.
   - right; reflexivity.
   - left. split; auto. apply Hf.
@@ -1608,9 +1608,140 @@ Proof.
   pose proof (S1 j t Hj) as (_ & _ & _ & _ & Hf).
   pose proof (poll_leaves_no_final_live Sim st0 ids decs st Hcov F j t Hj) as Hok.
   destruct (fin t) eqn:Ef.
-  - exfalso. destruct Hf as (Hm & _). destruct (Hok eq_refl) as (Hc & _). apply Hc.
+  - exfalso. destruct Hf as (Hm & _). destruct (Hok Ef) as (Hc & _). apply Hc.
     unfold status_of. rewrite Hm, Hp. reflexivity.
   - right; reflexivity.
   - left. split; auto. apply Hf.
   - exfalso. destruct Hf as (_ & Hpf & _). congruence.
+Qed.
+
+(* ================================================================== *)
+(* blackbox simulator: corrected elapsed times keep the report order     *)
+(* ================================================================== *)
+Local Open Scope Q_scope.
+
+Lemma Qmaxb_ge_r a b : b <= Qmaxb a b.
+Proof.
+  unfold Qmaxb. destruct (Qleb a b) eqn:E; [apply Qle_refl|].
+  destruct (Qlt_le_dec a b) as [L|L]; auto. apply Qlt_le_weak in L. apply Qleb_le in L. congruence.
+Qed.
+Lemma Qmaxb_ge_l a b : a <= Qmaxb a b.
+Proof. unfold Qmaxb. destruct (Qleb a b) eqn:E; [apply Qleb_le; auto|apply Qle_refl]. Qed.
+
+Lemma eps_pos : 0 < eps_t.
+Proof. reflexivity. Qed.
+
+Lemma lt_plus_eps p : p < p + eps_t.
+Proof. rewrite <- (Qplus_0_r p) at 1. apply Qplus_lt_r. apply eps_pos. Qed.
+
+Lemma mono_fix_from_sorted : forall l prev,
+  Forall (fun y => prev < y) (mono_fix_from prev l) /\ StronglySorted Qlt (mono_fix_from prev l).
+Proof.
+  induction l as [|x r IH]; intros prev; simpl; [split; constructor|].
+  set (y := Qmaxb x (prev + eps_t)).
+  assert (Hy : prev < y).
+  { eapply Qlt_le_trans; [apply lt_plus_eps|apply Qmaxb_ge_r]. }
+  destruct (IH y) as (Hf & Hs). split.
+  - constructor; auto. eapply Forall_impl; [|exact Hf]. intros z Hz. eapply Qlt_trans; eauto.
+  - constructor; auto.
+Qed.
+
+Lemma mono_fix_sorted l : StronglySorted Qlt (mono_fix l) /\ Forall (fun y => 0 < y) (mono_fix l).
+Proof.
+  destruct l as [|x r]; simpl; [split; constructor|].
+  set (y := Qmaxb x eps_t).
+  assert (Hy : 0 < y) by (eapply Qlt_le_trans; [apply eps_pos|apply Qmaxb_ge_r]).
+  destruct (mono_fix_from_sorted r y) as (Hf & Hs). split.
+  - constructor; auto.
+  - constructor; auto. eapply Forall_impl; [|exact Hf]. intros z Hz. eapply Qlt_trans; eauto.
+Qed.
+
+Lemma mono_fix_from_length : forall l prev, length (mono_fix_from prev l) = length l.
+Proof. induction l; intros; simpl; auto. Qed.
+Lemma mono_fix_length l : length (mono_fix l) = length l.
+Proof. destruct l; simpl; auto. rewrite mono_fix_from_length. reflexivity. Qed.
+
+(* never earlier than the table says *)
+Lemma mono_fix_from_ge : forall l prev, Forall2 Qle l (mono_fix_from prev l).
+Proof. induction l; intros; simpl; constructor; auto. apply Qmaxb_ge_l. Qed.
+Lemma mono_fix_ge l : Forall2 Qle l (mono_fix l).
+Proof. destruct l; simpl; constructor; [apply Qmaxb_ge_l|apply mono_fix_from_ge]. Qed.
+
+(* a stable sort by time leaves a list with strictly increasing times as it is *)
+Definition time_lt (a b : nat * rep) : Prop := rts (snd a) < rts (snd b).
+
+Lemma sort_ts_increasing l : StronglySorted time_lt l -> sort_ts l = l.
+Proof.
+  induction 1 as [|x l Hs IH Hx]; simpl; auto. rewrite IH.
+  destruct l as [|y r]; simpl; auto.
+  inversion Hx as [|? ? Hxy _]; subst. unfold time_lt in Hxy.
+  destruct (Qltb (rts (snd y)) (rts (snd x))) eqn:E; auto.
+  apply Qltb_lt in E. exfalso. eapply Qlt_irrefl. eapply Qlt_trans; eauto.
+Qed.
+
+Lemma combine_sorted : forall (ts : list Q) (vs : list Z) i, StronglySorted Qlt ts ->
+  StronglySorted time_lt (map (pair i) (combine ts vs)).
+Proof.
+  induction ts as [|t r IH]; intros vs i Hs; simpl; [constructor|].
+  destruct vs as [|v vs]; simpl; [constructor|].
+  inversion Hs as [|? ? Hr Hall]; subst. constructor; [apply IH; auto|].
+  apply Forall_forall. intros e He. apply in_map_iff in He. destruct He as ((t' & v') & <- & Hin).
+  apply in_combine_l in Hin. rewrite Forall_forall in Hall. unfold time_lt; simpl. apply Hall; auto.
+Qed.
+
+Theorem fixup_keeps_report_order i times vals :
+  sort_ts (job_events i times vals) = job_events i times vals /\
+  map (fun e => snd (snd e)) (job_events i times vals) = firstn (length times) vals.
+Proof.
+  split.
+  - apply sort_ts_increasing. apply combine_sorted. apply mono_fix_sorted.
+  - unfold job_events. rewrite map_map. simpl.
+    rewrite <- (mono_fix_length times). generalize (mono_fix times). clear.
+    intros ts. revert vals. induction ts as [|t r IH]; intros [|v vs]; simpl; auto. f_equal. apply IH.
+Qed.
+
+Lemma fixup_example :
+  map Qred (mono_fix [1; 1 # 2; 4 # 5; 2]) = [1; 101 # 100; 51 # 50; 2].
+Proof. reflexivity. Qed.
+Local Close Scope Q_scope.
+
+(* status first, any single action of the worker between the two reads *)
+Definition w_of (m : midw) : wev :=
+  match m with MEmit i k => Emit i k | MFinish i _ => Finish i | MFail i k => Fail i k end.
+Definition mid_ok (m : midw) (t : tr) : Prop :=
+  match m with MFinish _ k => length (todo t) <= k | _ => True end.
+
+Lemma read_trial_decomp m t :
+  proc t = Running -> mid_ok m t ->
+  let tb := w_apply Generic (mid_before m) t in
+  read_trial [w_of m] t =
+    (status_of tb, log tb, fold_left (fun t w => w_apply Generic w t) (mid_after m) tb).
+Proof.
+  intros Hp Hk. destruct t as [lg td pr mk sn cs nr cu dc bs fn pa]; simpl in *. subst pr.
+  destruct m as [i k|i k|i k]; simpl in *.
+  - reflexivity.
+  - destruct (firstn_skipn_all td k Hk) as (Hf & Hsk).
+    unfold read_trial, t_emit, t_finish, t_write, status_of; simpl. rewrite Hf, Hsk. simpl.
+    rewrite app_nil_r. reflexivity.
+  - unfold read_trial, t_emit, t_fail, t_write, status_of; simpl.
+    rewrite app_nil_r. reflexivity.
+Qed.
+
+Lemma fetch2_good ids mid : forall e, In e (fetch2 ids mid) -> True.
+Proof. auto. Qed.
+
+(* non-vacuity of the completion theorems: the worker finishes after a poll; the next covering poll *)
+Lemma completed_example :
+  let evs := [ Start [(1, 0%Z); (2, 1%Z)]; W (Emit 0%nat 1%nat); Poll [0%nat] []; W (Finish 0%nat) ]%Q in
+  Forall good_ev evs /\
+  exists st0 st t, run Generic init evs = (st0, None) /\
+    (forall j t, nth_error (trials st0) j = Some t -> fin t = Live -> In j [0%nat]) /\
+    step Generic st0 (Poll [0%nat] []) = (st, None) /\ nth_error (trials st) 0%nat = Some t /\
+    proc t = ExitOk /\ fin t = DoneOk /\ dcur t = [(1, 0%Z); (2, 1%Z)]%Q.
+Proof.
+  intros evs. split.
+  - unfold evs, good_ev. repeat (constructor; simpl; try (split; [reflexivity|])); ss; auto.
+  - eexists. eexists. eexists. split; [vm_compute; reflexivity|]. split.
+    + intros [|[|j]] t Hj Hl; simpl in Hj; try discriminate; left; reflexivity.
+    + split; [vm_compute; reflexivity|]. split; [vm_compute; reflexivity|]. repeat split; reflexivity.
 Qed.
